@@ -58,12 +58,20 @@ def snap(df) -> dict:
     return {'labels': [_label(x) for x in df.index.tolist()], 'cols': cols, 'rows': rows}
 
 
-def keys_of(s: dict) -> list:
+def keys_of(s: dict, labels=True) -> list:
+    if not labels:
+        return [tuple(r) for r in s['rows']]
     return [(lab,) + tuple(r) for lab, r in zip(s['labels'], s['rows'])]
 
 
 def same(a: dict, b: dict) -> bool:
     return a['cols'] == b['cols'] and a['labels'] == b['labels'] and a['rows'] == b['rows']
+
+
+def same_rows(a: dict, b: dict) -> bool:
+    """same columns, same rows in the same order; index labels are NOT part of the property
+    (an operation may renumber the index, as panel() and remove() on panel data do)"""
+    return a['cols'] == b['cols'] and a['rows'] == b['rows']
 
 
 def diff(a: dict, b: dict) -> str:
@@ -72,12 +80,12 @@ def diff(a: dict, b: dict) -> str:
         return f'columns observed {a["cols"]} expected {b["cols"]}'
     if len(a['rows']) != len(b['rows']):
         return f'{len(a["rows"])} rows observed, {len(b["rows"])} expected; labels observed {a["labels"][:12]} expected {b["labels"][:12]}'
-    if a['labels'] != b['labels']:
-        return f'index labels observed {a["labels"][:12]} expected {b["labels"][:12]}'
     for i, (x, y) in enumerate(zip(a['rows'], b['rows'])):
         if x != y:
             bad = [c for c, u, v in zip(a['cols'], x, y) if u != v]
             return f'row at position {i} (label {a["labels"][i]}): observed {x} expected {y} (columns {bad})'
+    if a['labels'] != b['labels']:
+        return f'only index labels differ: observed {a["labels"][:12]} expected {b["labels"][:12]}'
     return 'no difference'
 
 
@@ -189,18 +197,30 @@ def read_flat(df):
 # judgements (each returns a list of (mechanism, message))
 
 
-def judge_split(pre: dict, folds: list, k: int, group_col) -> list:
-    """folds: [(estimation snapshot, validation snapshot)]"""
+def judge_split(pre: dict, folds: list, k: int, group_col, notes=None) -> list:
+    """folds: [(estimation snapshot, validation snapshot)].  Rows are identified by (label, values); when that
+    fails only because the returned frames carry other index labels, the judgement is repeated on values alone."""
+    out = _judge_split(pre, folds, k, group_col, True)
+    if out and not has_duplicate_labels(pre):
+        relaxed = _judge_split(pre, folds, k, group_col, False)
+        if not relaxed:
+            if notes is not None:
+                notes.append('split_frames_relabelled')
+            return []
+    return out
+
+
+def _judge_split(pre: dict, folds: list, k: int, group_col, labels) -> list:
     out = []
     if len(folds) != k:
         out.append(('split-number-of-folds', f'{len(folds)} folds returned for slices={k}'))
-    table = Counter(keys_of(pre))
+    table = Counter(keys_of(pre, labels))
     union = Counter()
     for i, (e, v) in enumerate(folds):
         if e['cols'] != pre['cols'] or v['cols'] != pre['cols']:
             out.append(('split-columns-differ', f'fold {i}: columns {e["cols"]} / {v["cols"]} for table columns {pre["cols"]}'))
             continue
-        ve, vv = Counter(keys_of(e)), Counter(keys_of(v))
+        ve, vv = Counter(keys_of(e, labels)), Counter(keys_of(v, labels))
         union += vv
         if ve + vv != table:
             both = sum(((ve + vv) - table).values())
@@ -242,6 +262,10 @@ def judge_sample(pre: dict, sample: dict, size) -> list:
     table = set(keys_of(pre))
     alien = [x for x in keys_of(sample) if x not in table]
     if alien:
+        values = set(keys_of(pre, False))
+        if all(x in values for x in keys_of(sample, False)):
+            alien = []  # existing rows under other index labels: labels are not part of the property
+    if alien:
         out.append(('bootstrap-row-not-in-table', f'{len(alien)} sampled row(s) do not exist in the table, e.g. {alien[0]}'))
     return out
 
@@ -270,7 +294,7 @@ def judge_individual_sample(pre: dict, col, current_map: list, sample: list, siz
 
 def judge_extract(pre: dict, positions: list, got: dict) -> list:
     want = {'labels': [pre['labels'][p] for p in positions], 'cols': list(pre['cols']), 'rows': [pre['rows'][p] for p in positions]}
-    if not same(got, want):
+    if not same_rows(got, want):
         return [('extract-rows-differ-from-positions', f'positions {positions[:12]}: {diff(got, want)}')]
     return []
 
@@ -329,6 +353,9 @@ class Shadow:
         self.rows = [self.rows[i] for i in keep]
         self.labels = [self.labels[i] for i in keep]
         self.rid = [self.rid[i] for i in keep]
+        if self.panel is not None:
+            # panel data stay organised by individual and the map describes the table that is left
+            self.set_panel(self.panel)
         return len(mask) - len(keep)
 
     def add_column(self, name, values):
